@@ -82,6 +82,17 @@ def existsMulti (c : Cfg) (keys : List (Nat × Nat)) (s : St) : ExistsOut :=
   if arr.length > keys.length then .panic
   else .ok (arr ++ List.replicate (keys.length - arr.length) false)
 
+/-- `AddMulti` together with the script arguments it hands to the client (`none`: no call).
+The model builds them from the call's own keys; the `bloom` suite compares them with the argv the
+fake client actually consumed, also when another call on the same filter value ran in between. -/
+def addMultiTrace (c : Cfg) (keys : List (Nat × Nat)) (s : St) : St × Option (List Nat) :=
+  if keys.isEmpty then (s, none)
+  else ((addScript c.k (allIdx c.m c.k keys) s).1, some (c.k :: allIdx c.m c.k keys))
+
+/-- `ExistsMulti` together with the script arguments it hands to the client -/
+def existsMultiTrace (c : Cfg) (keys : List (Nat × Nat)) (s : St) : ExistsOut × Option (List Nat) :=
+  (existsMulti c keys s, if keys.isEmpty then none else some (c.k :: allIdx c.m c.k keys))
+
 /-- `Count`: GET, nil ↦ 0 -/
 def count (s : St) : Nat := s.counter.getD 0
 
